@@ -235,10 +235,13 @@ def units():
     simple = ["map_constant", "map_variable", "map_product", "map_quotient", "map_power", "map_comparison",
               "map_max", "map_subscript", "map_logical_not", "map_call", "map_call_with_kwargs"]
     from . import c14, finder, builtins
+    from pyvc.contracts import FilteredUnit
+    # of C14's table units only what the fixed point needs (the lattice laws of unify are C14's own subject)
     # the property needs the table to be a fixed point of every statement (a kind refined late must reach all its
     # readers): the table's `set` and the driver loop are under the contracts of C14
     return [FunctionUnit(KimContract(m)) for m in simple] + [FunctionUnit(MapSum()), FunctionUnit(MapProductLike())] \
-        + c14.table_units() + finder.units() + builtins.units()
+        + [FilteredUnit(u, lambda name: "/lemma/" not in name and "/probe[" not in name) for u in c14.table_units()] \
+        + finder.units() + builtins.units()
 
 
 def concretize(obligation_name, model_text):
